@@ -731,6 +731,12 @@ func (gb *gcpBalancer) refresh(ref *subConnRef) {
 	if ref.refreshing {
 		return
 	}
+	if gb.scRefs[ref.subConn] != ref {
+		// The channel has left the pool (its connection was shut down): a late completion of one of
+		// its calls must not bring it back through a refresh - the pool may have been re-created at
+		// its full size meanwhile.
+		return
+	}
 	ref.refreshing = true
 	sc, err := gb.cc.NewSubConn(
 		gb.addrs,
